@@ -189,6 +189,10 @@ pub struct World {
     pub wake_delay_us: u64,
     /// see `BrokerAct::TimerLatency`
     pub timer_latency_us: u64,
+    /// this case's transports deliver to the broker only what has been flushed
+    pub buffered: bool,
+    /// (conn, packet index) of complete client packets written but not yet flushed
+    pub unflushed: Vec<(usize, usize)>,
     /// the slow-transport pause of the current operation has been taken
     pub slow_write_done: bool,
 }
@@ -212,6 +216,10 @@ impl World {
             slow_write_done: false,
             wake_delay_us: 0,
             timer_latency_us: 0,
+            // one case in three runs on a transport that keeps what it was given until flush() is
+            // called (a buffered writer): the broker sees nothing of a packet before that
+            buffered: seed.wrapping_mul(0x9E37_79B9_7F4A_7C15).rotate_left(17) % 3 == 0,
+            unflushed: Vec::new(),
         }))
     }
 
@@ -281,6 +289,8 @@ impl World {
             // acknowledgements the broker had not sent yet die with the connection
             self.conns[conn].held.clear();
             self.conns[conn].scheduled.clear();
+            // (what a buffered transport still held is lost with it)
+            self.unflushed.retain(|(c, _)| *c != conn);
             self.ev(Ev::ConnEnd { conn });
         }
     }
@@ -756,6 +766,10 @@ impl World {
         self.io_done(conn, IoKind::Write, buf.len(), IoAns::Bytes(k));
         for idx in done {
             self.ev(Ev::CPkt { conn, idx });
+            if self.buffered {
+                self.unflushed.push((conn, idx));
+                continue;
+            }
             let pkt = self.conns[conn].out.packets[idx].pkt.clone();
             self.on_client_packet(conn, &pkt);
         }
@@ -775,6 +789,13 @@ impl World {
         self.conns[conn].out.flushed(now);
         self.io_done(conn, IoKind::Flush, 0, IoAns::Done);
         self.ev(Ev::Flushed { conn });
+        // a buffered transport hands over what it held
+        let held: Vec<(usize, usize)> = self.unflushed.iter().copied().filter(|(c, _)| *c == conn).collect();
+        self.unflushed.retain(|(c, _)| *c != conn);
+        for (c, idx) in held {
+            let pkt = self.conns[c].out.packets[idx].pkt.clone();
+            self.on_client_packet(c, &pkt);
+        }
         Poll::Ready(Ok(()))
     }
 
